@@ -155,6 +155,10 @@ def generate_cases(ctx, notes):
             k = (len(cases) + ctx.seed) % 10
             if k in (0, 5):
                 v["kinds"] = ["glb", "text", "glb-again" if k == 0 else "text-again"]
+            elif ctx.tier == "quick":
+                # nothing X07 adds depends on the container (C06 judges both for every scene of its own): the quick tier
+                # writes the other scenes in one container, alternating; the thorough tier in both
+                v["kinds"] = ["glb" if len(cases) % 2 == 0 else "text"]
             cases.append(v)
             n += 1
         per[name] = n
@@ -173,6 +177,10 @@ def random_cases(ctx, vh, notes):
     core.run_vh(vh, ["xanim-random", "-out", p, "-seed", str(ctx.seed), "-n", str(n), "-maxv", str(maxv), "-maxj", str(maxj),
                      "-maxf", str(maxf)])
     cases = core.read_ndjson(p)
+    if ctx.tier == "quick":
+        for i, c in enumerate(cases):
+            if not c["kinds"]:
+                c["kinds"] = ["glb" if i % 2 == 0 else "text"]
     notes["random_scenes"] = len(cases)
     return cases
 
@@ -602,8 +610,9 @@ def run(ctx):
         "skeletons and sequences are observed through the public API of modeling/animation before the writer is called",
         "mesh nodes of the default scene are matched to non-empty models by order, animations to Sequences by order",
         "matrices are compared as numbers (+0 = -0), key times / values and node translations on IEEE bit patterns",
-        "a returned error is the only allowed outcome for a scene with a Sequence glTF cannot carry (no skeleton, unknown joint, "
-        "no key frame, times negative or not strictly increasing) and is not allowed for any other scene of the generators",
+        "a returned error is the only allowed outcome for a scene glTF cannot carry (a Sequence without skeleton, for an unknown "
+        "joint, without key frame, with times negative or not strictly increasing; a skeleton on a mesh that is not rigged for "
+        "it) and is not allowed for any other scene of the generators",
         "TLC evaluates GltfDoc / GltfAnim / TraceGltf / TraceGltfAnim correctly",
     ]
 
